@@ -65,7 +65,11 @@ impl P {
         }
         if let P::C09 = self {
             cfg.log = true;
-            cfg.hint_override = Some(Hint::None);
+            // "a provider that gives no availability hints": either the None variant or an empty list
+            // (what the C++ bridge passes for a provider without hints); the plan chooses which
+            if !matches!(&cfg.hint_override, Some(Hint::Some(v)) if v.is_empty()) {
+                cfg.hint_override = Some(Hint::None);
+            }
         }
         cfg
     }
